@@ -192,6 +192,9 @@ type cliCase struct {
 	// Lines / NoNL: the content of standard input under -R (Docs/Tail empty).
 	Lines []lineSpec `json:"lines,omitempty"`
 	NoNL  bool       `json:"nonl,omitempty"`
+	// Dirs: directories created in the scratch directory besides the operands
+	// (to be named by --slurpfile / --rawfile).
+	Dirs []string `json:"dirs,omitempty"`
 }
 
 // lineSpec is one line of a raw (-R) input: a literal text, or a generated
@@ -250,6 +253,26 @@ func rawText(lines []lineSpec, noNL bool) []byte {
 // rawLines is the documented reading of a raw input: the text is cut after
 // every line feed, the line feed itself is dropped (a carriage return before
 // it stays), and a last piece without line feed counts unless it is empty.
+// errPattern: the source ends in an error whose diagnostic contains this text
+// ("": the source is read to its end without error).  Established on the
+// unchanged tree: a name that does not exist fails in open, a directory opens
+// and fails at the first read ("invalid json: dirN ... read dirN: is a
+// directory", plain "read dirN: is a directory" under -R), a malformed tail is
+// an "invalid json" / "invalid yaml" report.
+func errPattern(o opts, f fileSpec) string {
+	switch {
+	case f.Kind == "missing":
+		return "no such file or directory"
+	case f.Kind == "dir":
+		return "is a directory"
+	case f.Tail == "":
+		return ""
+	case o.yaml:
+		return "invalid yaml: "
+	}
+	return "invalid json: "
+}
+
 func rawLines(content []byte) []any {
 	var out []any
 	parts := strings.Split(string(content), "\n")
@@ -282,6 +305,8 @@ func (c cliCase) fileNames() []string {
 			names = append(names, "-")
 		case "missing":
 			names = append(names, fmt.Sprintf("missing%d.json", i))
+		case "dir":
+			names = append(names, fmt.Sprintf("dir%d", i))
 		default:
 			names = append(names, fmt.Sprintf("f%d.json", i))
 		}
@@ -364,6 +389,7 @@ func (c cliCase) stdin() []byte {
 type opts struct {
 	raw, join, raw0, compact, tab, exit, null, slurp, stream, yaml, rawIn bool
 	indent                                                                *int
+	argFiles                                                              []string // files named by --slurpfile / --rawfile
 }
 
 var longBool = map[string]func(*opts){
@@ -407,6 +433,13 @@ func parseArgs(args []string) (o opts, rest []string, usage bool, outside string
 				if j := strings.IndexByte(name, '='); j >= 0 {
 					name, val, hasVal = name[:j], name[j+1:], true
 				}
+			}
+			if !hasVal && (name == "slurpfile" || name == "rawfile") { // --slurpfile name file
+				if i += 2; i >= len(args) {
+					return o, nil, true, "" // expected 2 arguments
+				}
+				o.argFiles = append(o.argFiles, args[i])
+				continue
 			}
 			if otherLong[name] {
 				return o, nil, false, "flag outside the model: " + a
@@ -538,6 +571,7 @@ type stream struct {
 	pos      int
 	tailSeen int      // error values handed out so far
 	notes    []string // what debug / stderr wrote since the last takeNotes
+	all      []any    // the units before --slurp
 }
 
 func (s *stream) debug(v any) {
@@ -560,9 +594,31 @@ func (s *stream) takeNotes() []string {
 	return n
 }
 
-type tailError struct{}
+// tailError stands for the one error an input source ends with; pat is a text
+// the command's diagnostic for it has to contain.
+type tailError struct {
+	id  int
+	pat string
+}
 
-func (tailError) Error() string { return "malformed input (harness model)" }
+const tailMark = "(harness model)"
+
+func (e tailError) Error() string { return fmt.Sprintf("malformed input #%d %s", e.id, tailMark) }
+
+// patternIn finds the pattern of the stream error quoted in an error message.
+func (s *stream) patternIn(msg string) (string, bool) {
+	i := strings.Index(msg, "malformed input #")
+	if i < 0 || !strings.Contains(msg, tailMark) {
+		return "", false
+	}
+	id, _ := strconv.Atoi(strings.SplitN(msg[i+len("malformed input #"):], " ", 2)[0])
+	for _, it := range s.all {
+		if te, ok := it.(tailError); ok && te.id == id {
+			return te.pat, true
+		}
+	}
+	return "", true
+}
 
 // newStream takes the values of all input sources in order, an error value
 // standing for each malformed tail / unreadable file (the source ends there,
@@ -572,12 +628,12 @@ func newStream(o opts, units []any) *stream {
 	if o.slurp {
 		for _, u := range units {
 			if _, bad := u.(error); bad {
-				return &stream{items: []any{tailError{}}}
+				return &stream{items: []any{u}, all: units}
 			}
 		}
-		return &stream{items: []any{append([]any{}, units...)}}
+		return &stream{items: []any{append([]any{}, units...)}, all: units}
 	}
-	return &stream{items: append([]any{}, units...)}
+	return &stream{items: append([]any{}, units...), all: units}
 }
 
 func (s *stream) Next() (any, bool) {
@@ -613,6 +669,7 @@ type stopEv struct {
 	val    any    // halt value
 	msg    string // message of the runtime error, "" when not predicted
 	stream bool   // the error is the malformed tail reached through input/inputs
+	pat    string // then: what the diagnostic has to contain
 	panic  string
 	budget bool
 }
@@ -642,6 +699,9 @@ func libRunner(code *gojq.Code, st *stream) runner {
 				}
 				if h, ok := err.(*gojq.HaltError); ok {
 					return &stopEv{halt: true, code: h.ExitCode(), val: h.Value()}
+				}
+				if pat, ok := st.patternIn(err.Error()); ok {
+					return &stopEv{msg: err.Error(), stream: true, pat: pat}
 				}
 				return &stopEv{msg: err.Error(), stream: st.tailSeen > seen}
 			}
@@ -732,8 +792,8 @@ func algRunner(items []item, st *stream) runner {
 				if !ok {
 					return &stopEv{}, false
 				}
-				if _, bad := v.(error); bad {
-					return &stopEv{stream: true}, false
+				if te, bad := v.(tailError); bad {
+					return &stopEv{stream: true, pat: te.pat}, false
 				}
 				if !emit(v) {
 					return nil, false
@@ -744,8 +804,8 @@ func algRunner(items []item, st *stream) runner {
 					if !ok {
 						break
 					}
-					if _, bad := v.(error); bad {
-						return &stopEv{stream: true}, false
+					if te, bad := v.(tailError); bad {
+						return &stopEv{stream: true, pat: te.pat}, false
 					}
 					if !emit(v) {
 						return nil, false
@@ -877,6 +937,7 @@ type expect struct {
 	exit    int
 	diags   int      // diagnostics due, a halt_error message not counted
 	msgs    []string // texts that stderr has to contain
+	pats    []string // texts the diagnostics of the input errors have to contain
 	haltMsg string
 	halted  bool
 
@@ -926,10 +987,13 @@ func loop(o opts, st *stream, rn runner) expect {
 		if !ok {
 			break
 		}
-		if _, bad := v.(error); bad {
+		if te, bad := v.(tailError); bad {
 			e.diags++
 			e.tailErr = true
 			anyErr = true
+			if te.pat != "" {
+				e.pats = append(e.pats, te.pat)
+			}
 			continue
 		}
 		nul := false
@@ -985,6 +1049,9 @@ func loop(o opts, st *stream, rn runner) expect {
 		anyErr = true
 		if ev.stream {
 			e.tailErr = true
+			if ev.pat != "" {
+				e.pats = append(e.pats, ev.pat)
+			}
 		} else {
 			e.msgs = append(e.msgs, ev.msg) // "" when the evaluator does not predict the text
 		}
@@ -1081,9 +1148,9 @@ func judge(c cliCase) verdict {
 			switch f.Kind {
 			case "stdin":
 				stdins++
-			case "missing":
-				if len(f.Docs) > 0 || f.Tail != "" {
-					return bad("a missing file has no content")
+			case "missing", "dir":
+				if len(f.Docs) > 0 || f.Tail != "" || len(f.Lines) > 0 {
+					return bad("a missing file or a directory has no content")
 				}
 			case "file":
 			default:
@@ -1092,6 +1159,20 @@ func judge(c cliCase) verdict {
 		}
 		if stdins > 1 {
 			return bad("standard input named twice")
+		}
+	}
+	for _, d := range c.Dirs {
+		if d == "" || strings.ContainsAny(d, "/.\x00") || strings.HasPrefix(d, "-") {
+			return bad("directory name %q", d)
+		}
+	}
+	for _, f := range o.argFiles { // only a directory is modelled as the file of --slurpfile / --rawfile
+		known := false
+		for _, d := range c.Dirs {
+			known = known || d == f
+		}
+		if !known {
+			return bad("--slurpfile / --rawfile %q: only the directories of the case are modelled", f)
 		}
 	}
 	var input []byte
@@ -1110,7 +1191,7 @@ func judge(c cliCase) verdict {
 			if sp.Kind == "stdin" {
 				input = srcs[i].content
 			}
-			if sp.Kind == "missing" && i < len(srcs)-1 {
+			if (sp.Kind == "missing" || sp.Kind == "dir") && i < len(srcs)-1 {
 				fileErrEarly = true
 			}
 			continue
@@ -1128,7 +1209,7 @@ func judge(c cliCase) verdict {
 		if o.yaml && sp.Tail != "" && !yamlTail[sp.Tail] {
 			return bad("tail %q is not in the pool of YAML texts that fail only at the end of the stream", sp.Tail)
 		}
-		if (sp.Tail != "" || sp.Kind == "missing") && i < len(srcs)-1 {
+		if (sp.Tail != "" || sp.Kind == "missing" || sp.Kind == "dir") && i < len(srcs)-1 {
 			fileErrEarly = true
 		}
 		srcs[i].content = sourceText(o.yaml, sp.Docs, sp.Sep, sp.Tail, sp.End)
@@ -1163,6 +1244,10 @@ func judge(c cliCase) verdict {
 		exp = expect{kind: "usage", exit: 2, diags: 1}
 	case o.indent != nil && (*o.indent > 9 || *o.indent < 0):
 		exp = expect{kind: "indent", exit: 5, diags: 1}
+	case len(o.argFiles) > 0:
+		// the file of --slurpfile / --rawfile is read before anything runs; a
+		// directory fails at the first read: one diagnostic, status 5, no output
+		exp = expect{kind: "argfile", exit: 5, diags: 1, pats: []string{"is a directory"}}
 	default:
 		text := "."
 		if len(rest) >= 1 {
@@ -1193,8 +1278,8 @@ func judge(c cliCase) verdict {
 				}
 			}
 			units = append(units, vals...)
-			if src.spec.Tail != "" || src.spec.Kind == "missing" {
-				units = append(units, tailError{})
+			if pat := errPattern(o, src.spec); pat != "" {
+				units = append(units, tailError{id: len(units), pat: pat})
 			}
 		}
 		mkStream := func() *stream { return newStream(o, units) }
@@ -1202,8 +1287,8 @@ func judge(c cliCase) verdict {
 			var all strings.Builder
 			units = []any{nil}
 			for _, src := range srcs {
-				if src.spec.Kind == "missing" {
-					units[0] = tailError{}
+				if pat := errPattern(o, src.spec); pat != "" {
+					units[0] = tailError{id: 0, pat: pat}
 					break
 				}
 				all.Write(src.content)
@@ -1260,17 +1345,27 @@ func judge(c cliCase) verdict {
 
 	// the command
 	opt := cmdline.Opt{Stdin: input}
-	if len(c.Files) > 0 {
+	if len(c.Files) > 0 || len(c.Dirs) > 0 {
 		dir, err := os.MkdirTemp("", "c15-files-")
 		if err != nil {
 			return verdict{discard: "scratch-directory", o: o, exp: exp}
 		}
 		defer os.RemoveAll(dir)
 		for _, src := range srcs {
-			if src.spec.Kind == "file" {
-				if err := os.WriteFile(filepath.Join(dir, src.name), src.content, 0o644); err != nil {
-					return verdict{discard: "scratch-directory", o: o, exp: exp}
-				}
+			var err error
+			switch src.spec.Kind {
+			case "file":
+				err = os.WriteFile(filepath.Join(dir, src.name), src.content, 0o644)
+			case "dir":
+				err = os.Mkdir(filepath.Join(dir, src.name), 0o755)
+			}
+			if err != nil {
+				return verdict{discard: "scratch-directory", o: o, exp: exp}
+			}
+		}
+		for _, d := range c.Dirs {
+			if err := os.Mkdir(filepath.Join(dir, d), 0o755); err != nil {
+				return verdict{discard: "scratch-directory", o: o, exp: exp}
 			}
 		}
 		opt.Dir = dir
@@ -1284,7 +1379,7 @@ func judge(c cliCase) verdict {
 	if len(c.Files) > 0 {
 		desc = ""
 		for _, src := range srcs {
-			if src.spec.Kind != "missing" {
+			if src.spec.Kind == "file" || src.spec.Kind == "stdin" {
 				desc += src.name + "=" + clip(string(src.content)) + "; "
 			}
 		}
@@ -1314,6 +1409,15 @@ func judge(c cliCase) verdict {
 			if m != "" && !strings.Contains(r.Stderr, m) {
 				v.msg = fmt.Sprintf("%s: stderr %q lacks the diagnostic %q", where, clip(r.Stderr), m)
 				break
+			}
+		}
+		due := map[string]int{}
+		for _, p := range exp.pats {
+			due[p]++
+		}
+		for _, p := range exp.pats {
+			if v.msg == "" && strings.Count(r.Stderr, p) < due[p] {
+				v.msg = fmt.Sprintf("%s: %d input diagnostics containing %q are due, stderr is %q", where, due[p], p, clip(r.Stderr))
 			}
 		}
 	}
@@ -1917,11 +2021,18 @@ streamSets:
 		{file("", `1`), {Kind: "missing"}, {Kind: "stdin", Docs: []string{`9`, `8`}, Sep: " "}, file("", `2`)},
 		{file(`]`, `[1,2]`), file("", `{"a":[3,4]}`)},
 		{file(`@`), file(`}`, `null`), file("", `false`)},
+		// a directory as an operand opens and fails at the first read: first, middle, last, alone
+		{{Kind: "dir"}, file("", `1`, `2`)},
+		{file("", `1`, `[2,3]`), {Kind: "dir"}, file("", `3`)},
+		{file("", `1`, `2`), {Kind: "dir"}},
+		{{Kind: "dir"}},
+		{{Kind: "dir"}, {Kind: "stdin", Docs: []string{`7`}}, {Kind: "dir"}, {Kind: "missing"}},
 	}
 	yamlSets := [][]fileSpec{
 		{file(`[1, 2`, `1`, `"a"`), file("", `true`)},
 		{file(`{a: 1`), file(""), file("", `[1,[2]]`, `{"a":"z"}`)},
 		{file("", `2`), {Kind: "stdin", Docs: []string{`"x y"`}, Tail: `[1, 2`}, file("", `null`)},
+		{file("", `1`), {Kind: "dir"}, file("", `true`)},
 	}
 	type fmode struct {
 		pre  []string
@@ -1963,6 +2074,45 @@ streamSets:
 	}
 	runFixed(jsonSets, jsonModes)
 	runFixed(yamlSets, yamlModes)
+	{ // -R over a directory between two files; a directory named by --slurpfile / --rawfile
+		txt := func(lines ...string) fileSpec {
+			f := fileSpec{Kind: "file"}
+			for _, l := range lines {
+				f.Lines = append(f.Lines, lineSpec{Text: l})
+			}
+			return f
+		}
+		rawSet := []fileSpec{txt("ab", "c"), {Kind: "dir"}, txt("d")}
+		var extra []cliCase
+		for _, pre := range [][]string{{"-R", "-c"}, {"-R", "-s", "-c"}, {"-nR", "-c"}, {"-R", "-e"}} {
+			text := `.`
+			if pre[0] == "-nR" {
+				text = `[inputs]`
+			}
+			extra = append(extra, cliCase{Pre: pre, Text: text, Docs: []string{}, Files: rawSet},
+				cliCase{Pre: pre, Text: text, Docs: []string{}, Files: []fileSpec{{Kind: "dir"}, txt("z")}})
+		}
+		for _, flag := range []string{"--slurpfile", "--rawfile"} {
+			for _, pre := range [][]string{{}, {"-e"}, {"-n"}, {"-s", "-c"}, {"--indent", "3"}} {
+				args := append(append([]string{}, pre...), flag, "x", "adir")
+				extra = append(extra, cliCase{Pre: args, Text: `$x`, Docs: []string{`1`, `2`}, Dirs: []string{"adir"}},
+					cliCase{Pre: []string{"-c"}, Text: `.`, Post: append([]string{flag, "x", "adir"}, pre...), Docs: []string{}, Dirs: []string{"adir"}})
+			}
+			extra = append(extra, cliCase{Pre: []string{flag, "x", "adir"}, Text: `.[`, Docs: []string{`1`}, Dirs: []string{"adir"}},
+				cliCase{Pre: []string{"--indent", "10", flag, "x", "adir"}, Text: `.`, Docs: []string{`1`}, Dirs: []string{"adir"}},
+				cliCase{Pre: []string{flag, "x"}, NoQ: true, Docs: []string{`1`}, Dirs: []string{"adir"}})
+		}
+		for _, c := range extra {
+			idx++
+			if !rec.Mine(idx) || rec.Violations() > before+12 {
+				continue
+			}
+			if msg := do("files-fixed", c); msg != "" {
+				rec.Direct("files-fixed", c, "%s", msg)
+				complete = false
+			}
+		}
+	}
 	rec.Exhaustive(fmt.Sprintf("file arguments: %d JSON sets x %d modes, %d YAML sets x %d modes", len(jsonSets), len(jsonModes), len(yamlSets), len(yamlModes)), complete)
 
 	// (E4) -R: lines whose lengths lie around the reader's buffer sizes, with
@@ -2046,8 +2196,10 @@ rawSets:
 					f.Kind = "missing"
 				case k == 1 && !stdinUsed:
 					f.Kind, stdinUsed = "stdin", true
+				case k == 2:
+					f.Kind = "dir"
 				}
-				if f.Kind != "missing" {
+				if f.Kind == "file" || f.Kind == "stdin" {
 					f.Lines, f.NoNL = genLines()
 				}
 				c.Files = append(c.Files, f)
@@ -2089,8 +2241,10 @@ rawSets:
 				f.Kind = "missing"
 			case k <= 2 && !stdinUsed:
 				f.Kind, stdinUsed = "stdin", true
+			case k <= 5:
+				f.Kind = "dir"
 			}
-			if f.Kind != "missing" {
+			if f.Kind == "file" || f.Kind == "stdin" {
 				nd := rapid.IntRange(0, 3).Draw(t, "docs")
 				for j := 0; j < nd; j++ {
 					switch mode {
